@@ -291,9 +291,7 @@ def validate(seed, tier):
     for t in ops.op_tasks('quick'):
         if t['op'] == 'hamiltonian' and t['L'] > 2:
             continue
-        f = concrete.CHECKS['op_step'](dict(task=t, seed=seed, focus='C19'))
-        if f:
-            raise runner.HarnessError(f'concrete aliasing check fails on the unchanged tree for {t["name"]}: {f}')
+        runner.concrete_check('op_step', dict(task=t, seed=seed, focus='C19'))
         n += 1
     return dict(concrete_operation_steps_checked=n)
 
